@@ -152,6 +152,20 @@ theorem hashmapK {rd X w} (h : Refines rd X w) (n : Nat) (s : Frag) (v : Val) (s
   have := dictWalkInline_sound X rd w h n s v s' hd
   simp [Rd.loadHashmap, this]
 
+/-- the same with signed keys (`key_deserializer=… load_int(n)`) -/
+theorem hashmapSK {rd X w} (h : Refines rd X w) (n : Nat) (s : Frag) (v : Val) (s' : Frag) :
+    ((hashmap n X).dec s = some (v, s')) ↔
+      (Kept (hashmap n X) s v s' ∧ Rd.loadHashmapS n rd false s = some (Rd.dictS (flattenF w (n + 1) n [] v), s')) := by
+  refine ⟨fun hd => ⟨hd, ?_⟩, fun hd => hd.1⟩
+  have := dictWalkInline_sound X rd w h n s v s' hd
+  simp [Rd.loadHashmapS, this]
+
+/-- `lambda src: src.load_ref().begin_parse()` against `^Cell` -/
+theorem refines_refSlice : Refines Rd.refSlice cellRef (fun c => .con "slice" c) := by
+  intro s v s' hd
+  obtain ⟨b, c, more, rfl, rfl, rfl⟩ := (cellRef_dec s v s').1 hd
+  simp [Rd.refSlice, loadRef_cons]
+
 /-! ### `Slice.load_hashmap_aug_e` : `HashmapAugE n X Y` -/
 
 theorem get_extra_value_v (e v : Val) : (Val.record [("extra", e), ("value", v)]).get "value" = v := by
@@ -280,5 +294,47 @@ theorem augKV {x X wx y Y wy} (hx : RefinesEP PV x X wx) (hy : Refines y Y wy) (
     ((hashmapAugE n X Y).dec s = some (v, s')) ↔
       (Kept (hashmapAugE n X Y) s v s' ∧ (v.noVar = true → Rd.loadHashmapAugE n x y false s = some (viewAugE wx wy n v, s'))) :=
   ⟨fun hd => ⟨hd, (RefinesEP.augEV hx hy n) s v s' hd⟩, fun hd => hd.1⟩
+
+/-! ### `deserialize_shard_hashes` : `HashmapE 32 ^(BinTree X)` -/
+
+theorem binTreeWalk_sound (X : Codec) (leaf : Bool → Frag → Rd.R) (w : Val → Val) (hleaf : RefinesEP PT (leaf false) X w) :
+    ∀ fuel b r tv, (binTreeF X fuel).dec ⟨b, r⟩ = some (tv, ⟨[], []⟩) →
+      Rd.binTreeWalk leaf fuel (Cell.mk false b r) = some (btLeaves w fuel tv) := by
+  intro fuel
+  induction fuel with
+  | zero => intro b r tv h; simp [binTreeF, failC] at h
+  | succ fuel ih =>
+    intro b r tv h
+    simp only [binTreeF, tagged_dec, decAlts_cons, decAlts_nil, recd_dec, fld, decFields_cons, decFields_nil, ref_dec] at h
+    obtain ⟨_, h⟩ := h
+    rcases h with ⟨t, rs, hs, x, hx, rfl⟩ |
+      ⟨_, ⟨t, rs, hs, x, ⟨vs, ⟨a, s3, ⟨bs, b0, r0, more, hs2, ha, rfl⟩, vs', ⟨bb, s4, ⟨bs', b1, r1, more', hs3, hb, rfl⟩, vs'', ⟨rfl, hnil⟩, rfl⟩, rfl⟩, rfl⟩, rfl⟩ | ⟨_, hf⟩⟩
+    rotate_left 2
+    · exact hf.elim
+    · simp only [Frag.mk.injEq] at hs
+      obtain ⟨rfl, rfl⟩ := hs
+      obtain ⟨k, hk⟩ := hleaf _ _ _ hx trivial
+      simp [Rd.binTreeWalk, Cell.exotic, Cell.bits, Cell.refs, loadBit_cons, Rd.truthy, hk, btLeaves]
+    · simp only [Frag.mk.injEq] at hs hs2 hs3
+      obtain ⟨rfl, rfl⟩ := hs
+      obtain ⟨rfl, rfl⟩ := hs2
+      obtain ⟨rfl, rfl⟩ := hs3
+      have h1 := ih _ _ _ ha
+      have h2 := ih _ _ _ hb
+      simp [Rd.binTreeWalk, Cell.exotic, Cell.bits, Cell.refs, loadBit_cons, Rd.truthy, h1, h2, btLeaves, get_left, get_right]
+
+theorem refines_binTreeRef {X : Codec} {leaf : Bool → Frag → Rd.R} {w : Val → Val} (hleaf : RefinesEP PT (leaf false) X w) :
+    Refines (Rd.binTreeRef leaf) (ref (binTree X)) (viewBinTree w) := by
+  intro s v s' hd
+  obtain ⟨bs, b, r, more, rfl, h2, rfl⟩ := (ref_dec _ s v s').1 hd
+  have := binTreeWalk_sound X leaf w hleaf 64 b r v h2
+  simp [Rd.binTreeRef, loadRef_cons, this, viewBinTree]
+
+/-- `deserialize_shard_hashes` against `HashmapE 32 ^(BinTree X)` -/
+theorem shardHashesK {X : Codec} {leaf : Bool → Frag → Rd.R} {w : Val → Val} (hleaf : RefinesEP PT (leaf false) X w)
+    (s : Frag) (v : Val) (s' : Frag) :
+    ((hashmapE 32 (ref (binTree X))).dec s = some (v, s')) ↔
+      (Kept (hashmapE 32 (ref (binTree X))) s v s' ∧ Rd.loadShardHashes leaf s = some (viewDict (viewBinTree w) 32 v, s')) :=
+  dictK (refines_binTreeRef hleaf) 32 s v s'
 
 end TonVerif.Tlb.Blk
